@@ -319,5 +319,5 @@ def run(ctx):
         if kind == "roundtrip" and q.startswith("Climate1D"):
             witness = "insertion-order" if all(c["order"] != sorted(c["order"]) for _, _, c in items) else kind
         ctx.add(Finding("C10", "C10.AXI." + kind, q, "%s (%d of the swept configurations fail)" % (what, len(items)), pm.path(MODELS_MOD), node.lineno, cfg, witness))
-    ev.instances("C10.AXI.obligations", ev.obligations, floor=150 if ctx.tier == "quick" else 600)
+    ev.instances("C10.AXI.obligations", ev.obligations, floor=150 if ctx.tier == "quick" else 400)
     ev.exhaustive = False
